@@ -4,6 +4,8 @@ mod checks;
 mod fw;
 mod gen;
 mod msggen;
+mod srvgen;
+mod srvrun;
 
 use std::time::Instant;
 
